@@ -59,7 +59,9 @@ def multiply(
     """
     x1, x2 = numpoly.align_indeterminants(x1, x2)
 
-    dtype = numpy.result_type(x1, x2)
+    dtype = kwargs.pop("dtype", None)
+    if dtype is None:
+        dtype = numpy.result_type(x1, x2)
     shape = numpy.broadcast_shapes(x1.shape, x2.shape)
 
     where = numpy.asarray(where)
@@ -120,10 +122,11 @@ def multiply(
             for expon2, coeff2 in zip(x2.exponents, x2.coefficients):
                 key = (expon1 + expon2 + x1.KEY_OFFSET).ravel()
                 key = key.view(f"U{len(expon1)}").item()
+                term = numpy.multiply(coeff1, coeff2, dtype=dtype)
                 if key in seen:
-                    out_.values[key] += coeff1 * coeff2
+                    out_.values[key] += term
                 else:
-                    out_.values[key] = coeff1 * coeff2
+                    out_.values[key] = term
                 seen.add(key)
     if out is None:
         out_ = numpoly.clean_attributes(out_)
